@@ -45,7 +45,7 @@ Acts(t) ==
                                      q \in fp, lo \in 0..NC, hi \in 0..(NC + 1), s \in 1..2} ELSE {})
  \cup (IF "fimul" \in OPS THEN {[op |-> "fimul", path |-> q, v |-> v] : q \in lp, v \in Vs} ELSE {})
  \cup (IF "fiadd" \in OPS /\ DEPTH = 1 THEN {[op |-> "fiadd", path |-> <<>>, v |-> v] : v \in Vs} ELSE {})
- \cup (IF "updcoords" \in OPS THEN {[op |-> "updcoords", path |-> q, fn |-> f] : q \in fp, f \in {"shift", "reverse", "double"}} ELSE {})
+ \cup (IF "updcoords" \in OPS THEN {[op |-> "updcoords", path |-> q, fn |-> f] : q \in fp, f \in {"shift", "reverse", "double", "mirror", "recentre"}} ELSE {})
  \cup (IF "obs" \in OPS THEN {[op |-> "obs", kind |-> k] : k \in {"eq", "or", "xor", "and", "sub", "print", "count", "getabsent", "iter", "shape", "dump", "uncompress", "copy", "reroot"}} ELSE {})
  \cup (IF "get" \in OPS THEN {[op |-> "get", path |-> q, pt |-> r, mode |-> m, sp |-> sp] :
                                   q \in fp, r \in UNION {Pts(k) : k \in 1..DEPTH}, m \in {"alloc", "dflt"}, sp \in -1..(NC - 1)} ELSE {})
